@@ -48,6 +48,7 @@ type c55Item struct {
 	// faults (ok / enoent / other)
 	lstat, open, fstat, read, readdir string
 	typeChanged, metaFault            bool
+	empty                             bool // regular file without content
 }
 
 func (it *c55Item) init() {
@@ -63,7 +64,7 @@ func (h *H) c55Gen(depth int, budget *int, name string) *c55Item {
 		nm := fmt.Sprintf("%c%d", "abcdefgh"[h.Intn(8)], i)
 		switch k := h.Intn(10); {
 		case k < 5:
-			c := &c55Item{name: nm, kind: "file"}
+			c := &c55Item{name: nm, kind: "file", empty: h.Intn(4) == 0}
 			c.init()
 			d.children = append(d.children, c)
 		case k < 8 && depth < 3:
@@ -91,7 +92,11 @@ func c55Create(it *c55Item, path string) {
 			c55Create(c, filepath.Join(path, c.name))
 		}
 	case "file":
-		if err := os.WriteFile(path, []byte("content of "+it.name+strings.Repeat("x", len(it.name)*37)), 0644); err != nil {
+		content := []byte("content of " + it.name + strings.Repeat("x", len(it.name)*37))
+		if it.empty {
+			content = nil
+		}
+		if err := os.WriteFile(path, content, 0644); err != nil {
 			panic(err)
 		}
 	case "socket":
@@ -134,6 +139,7 @@ func (h *H) c55Perm(it *c55Item, parentSearchable bool, top bool) {
 		if h.Intn(4) == 0 {
 			it.mode = []uint32{0600, 0000, 0640, 0200}[h.Intn(4)]
 			it.open = "other"
+			it.empty = h.Bool() // an unreadable file with no content must be reported as well
 		}
 	case "dir":
 		it.mode = 0755
@@ -165,7 +171,7 @@ func c55Chmod(it *c55Item, path string) {
 			c55Chmod(c, filepath.Join(path, c.name))
 		}
 	}
-	if it.kind == "file" || it.kind == "dir" {
+	if (it.kind == "file" && it.mode != 0644) || (it.kind == "dir" && it.mode != 0755) {
 		if err := os.Chmod(path, os.FileMode(it.mode)); err != nil {
 			panic(err)
 		}
@@ -521,13 +527,46 @@ func (h *H) c55PermCase(self, repo string) {
 	_ = os.Chmod(work, 0755)
 	defer c55MakeRemovable(work)
 	src := filepath.Join(work, "src")
+	withParent := h.Intn(2) == 0
+	if withParent && h.Intn(3) != 0 {
+		// make sure some file WITHOUT content becomes unreadable after the parent snapshot
+		var all []*c55Item
+		c55All(root, &all)
+		var fl []*c55Item
+		for _, it := range all {
+			if it.kind == "file" {
+				fl = append(fl, it)
+			}
+		}
+		if len(fl) > 0 {
+			it := fl[h.Intn(len(fl))]
+			it.mode, it.open, it.empty = 0, "other", true
+		}
+	}
 	c55Create(root, src)
-	c55Chmod(root, src)
 	h.Case("perm")
 	h.Rec("mode", "perm")
 	h.Rec("target", "abs")
+	if withParent {
+		// first a complete backup of the still readable tree (it becomes the parent snapshot), then
+		// the permissions change: unchanged files are taken from the parent without being opened,
+		// files whose mode changed (new ctime) must be opened again
+		h.Rec("parent", "1")
+		if _, exit0, err0 := c55Child(true, self, "-r", repo, "--no-cache", "--json", "backup", src); err0 != nil || exit0 != 0 {
+			h.Rec("hang", HexS(fmt.Sprintf("parent backup failed: %v exit %d", err0, exit0)))
+			h.End()
+			return
+		}
+		time.Sleep(12 * time.Millisecond)
+	}
+	c55Chmod(root, src)
 	h.c55Emit(root, 0)
-	out, exit, err := c55Child(true, self, "-r", repo, "--no-cache", "--json", "backup", src)
+	args := []string{"-r", repo, "--no-cache", "--json", "backup", src}
+	if h.Intn(5) == 0 {
+		args = append(args, src) // the same target twice: still one source tree
+		h.Rec("duptarget", "1")
+	}
+	out, exit, err := c55Child(true, self, args...)
 	if err != nil {
 		h.Rec("hang", HexS(err.Error()))
 		h.End()
@@ -560,9 +599,12 @@ func (h *H) c55PermCase(self, repo string) {
 func (h *H) c55InjectCase() {
 	budget := 3 + h.Intn(14)
 	root := h.c55Gen(0, &budget, "src")
-	if h.Bool() {
+	dup := h.Intn(5) == 0
+	switch {
+	case dup && h.Bool(): // a complete backup with the target named twice
+	case h.Bool():
 		h.c55InjectOne(root)
-	} else {
+	default:
 		h.c55Inject(root, true)
 	}
 	work := MkTemp("c55-")
@@ -590,7 +632,12 @@ func (h *H) c55InjectCase() {
 		defer os.Chdir(cwd)
 		target, snapPrefix, snapBase = "src", "/src", "/"
 	}
-	res := cli.RunCtx(ctx, "--json", "backup", target)
+	bargs := []string{"--json", "backup", target}
+	if dup {
+		bargs = append(bargs, target) // the same target twice
+		h.Rec("duptarget", "1")
+	}
+	res := cli.RunCtx(ctx, bargs...)
 	cancel()
 	backupFSTestHook = nil
 	if res.Panic != "" {
